@@ -194,7 +194,7 @@ impl<'r> TemplateVisitor for Variants<'r> {
 
 fn random_api(rep: &Reporter) {
     let mut rng = SplitMix64::new(rep.seed).fork(0xC08_A);
-    for _ in 0..rep.tier.pick(200, 5000) {
+    for _ in 0..rep.tier.pick(200, 50_000) {
         let s = rng.next_u64();
         rep.case();
         rep.nontrivial(hash_of(&("rand", s)));
@@ -394,7 +394,7 @@ fn main() {
         }
     });
     rep.count("template_cells", n as u64);
-    let n_pipe = rep.tier.pick(600usize, 3000usize);
+    let n_pipe = rep.tier.pick(600usize, 12_000usize);
     std::thread::scope(|s| {
         for (w, range) in mv::shards(n_pipe, num_workers().min(8)).into_iter().enumerate() {
             let rep = &rep;
